@@ -7,6 +7,7 @@ CONSTANTS
   CallSeqs <- Calls1
   MaxGen = 3
   AllowExplicit = FALSE
+  Bug = "none"
 INVARIANT CommittedUntorn
 INVARIANT LatestNeverDeleting
 INVARIANT RestoreSound
